@@ -62,6 +62,8 @@ REQUIRED = [
     "primitives.categorize:Categorize.bin_labels",
     "primitives.categorize:Categorize.bin_entries",
     "plot.hist_numpy:get_2dgrid",
+    "plot.hist_numpy:prepare_2dgrid",
+    "plot.hist_numpy:set_2dgrid",
     "plot.matplotlib:TwoDimensionallyHistogramMethods.xy_ranges_grid",
     "plot.matplotlib:TwoDimensionallyHistogramMethods.project_on_x",
     "plot.matplotlib:SparselyTwoDimensionallyHistogramMethods.xy_ranges_grid",
@@ -70,7 +72,7 @@ REQUIRED = [
 
 
 def plan(tier):
-    return 3000 if tier == "quick" else 80000
+    return 8000 if tier == "quick" else 80000
 
 
 def budget(tier):
@@ -472,6 +474,107 @@ def _two_d_case(i, rng, tier):
     }
 
 
+def _make_axis(hg, rng, kind, q, value):
+    if kind == "Bin":
+        return hg.Bin(rng.choice([2, 3, 5]), -1.0, rng.choice([1.0, 2.0]), q, value, hg.Count(), hg.Count(), hg.Count())
+    if kind == "SparselyBin":
+        return hg.SparselyBin(rng.choice([0.5, 1.0]), q, value, hg.Count())
+    if kind == "CentrallyBin":
+        return hg.CentrallyBin(sorted(rng.sample([-1.0, 0.0, 0.5, 1.0, 2.0], rng.randint(2, 4))), q, value, hg.Count())
+    if kind == "IrregularlyBin":
+        return hg.IrregularlyBin(sorted(rng.sample([-1.0, 0.0, 0.5, 1.0, 2.0], rng.randint(1, 3))), q, value, hg.Count())
+    return hg.Categorize(q, value)
+
+
+def _key_of(kind, h1, before_keys):
+    """Library key (as hist_numpy.prepare_2dgrid keys it) of the bin of 1-D locator h1 that just received a fill."""
+    if kind == "Bin":
+        for j, v in enumerate(h1.values):
+            if v.entries != before_keys.get(j, 0.0):
+                return j
+        return None
+    if kind in ("SparselyBin", "Categorize"):
+        for k, v in h1.bins.items():
+            if v.entries != before_keys.get(k, 0.0):
+                return k
+        return None
+    for c, v in h1.bins:
+        if v.entries != before_keys.get(c, 0.0):
+            return c
+    return None
+
+
+def _snap(kind, h1):
+    if kind == "Bin":
+        return {j: v.entries for j, v in enumerate(h1.values)}
+    if kind in ("SparselyBin", "Categorize"):
+        return {k: v.entries for k, v in h1.bins.items()}
+    return {c: v.entries for c, v in h1.bins}
+
+
+def _two_d_mixed_case(i, rng, tier):
+    """hist_numpy.get_2dgrid on any pair of binning kinds: every cell must hold the weight of the points whose
+    x and y land - according to 1-D locator histograms of the same configuration - in that pair of bins."""
+    hg = env.hg()
+    from histogrammar.plot import hist_numpy
+
+    kinds = ["Bin", "SparselyBin", "CentrallyBin", "IrregularlyBin", "Categorize"]
+    kx, ky = rng.choice(kinds), rng.choice(kinds)
+    state = rng.getstate()
+    qx = (lambda d: d["cx"]) if kx == "Categorize" else (lambda d: d["x"])
+    qy = (lambda d: d["cy"]) if ky == "Categorize" else (lambda d: d["y"])
+    inner = _make_axis(hg, rng, ky, qy, hg.Count())
+    rng2 = __import__("random").Random(0)
+    rng2.setstate(state)
+    ly = _make_axis(hg, rng2, ky, qy, hg.Count())  # same configuration as `inner`
+    state = rng.getstate()
+    h = _make_axis(hg, rng, kx, qx, inner)
+    rng2.setstate(state)
+    lx = _make_axis(hg, rng2, kx, qx, hg.Count())
+    nan = float("nan")
+    pts = []
+    for _ in range(rng.randint(1, 14)):
+        pts.append({"x": rng.choice([-0.77, 0.13, 0.31, 0.63, 0.94, 1.41, 1.93, -2.03, 5.07, nan]), "y": rng.choice([-0.93, -0.41, 0.13, 0.61, 0.93, 1.63, -3.03, 4.07, nan]), "cx": rng.choice(["a", "b", "c"]), "cy": rng.choice(["u", "v"]), "w": rng.choice([1.0, 0.5, 2.0])})
+    want = {}
+    for p_ in pts:
+        h.fill(p_, p_["w"])
+        bx, by = _snap(kx, lx), _snap(ky, ly)
+        lx.fill(p_, p_["w"])
+        ly.fill(p_, p_["w"])
+        keyx, keyy = _key_of(kx, lx, bx), _key_of(ky, ly, by)
+        if keyx is not None and keyy is not None:
+            want[(keyx, keyy)] = want.get((keyx, keyy), 0.0) + p_["w"]
+    failures = []
+    counters = {"two_d_mixed": 1, "two_d_mixed:%s" % kx: 1}
+    wit = {"x_kind": kx, "y_kind": ky, "points": [S.jsonable(p_) for p_ in pts]}
+    if not want:
+        return {"digest": C.digest("2dm", wit), "nontrivial": False, "failures": [], "counters": counters, "sets": {}}
+    try:
+        xkeys, ykeys = hist_numpy.prepare_2dgrid(h)
+        grid = hist_numpy.set_2dgrid(h, xkeys, ykeys)
+        xl, yl, g2 = hist_numpy.get_2dgrid(h)
+    except Exception as e:  # noqa: BLE001
+        failures.append(C.fail(None, "hist_numpy 2-D grid of %s x %s raised %s: %s" % (kx, ky, type(e).__name__, str(e)[:160]), **wit))
+        return {"digest": C.digest("2dm", wit), "nontrivial": False, "failures": failures, "counters": counters, "sets": {}}
+    got = {}
+    for a, xk in enumerate(xkeys):
+        for b, yk in enumerate(ykeys):
+            if grid[b, a] != 0.0:
+                got[(xk, yk)] = float(grid[b, a])
+    if got != {k: v for k, v in want.items() if v != 0.0}:
+        failures.append(C.fail(None, "hist_numpy grid of %s x %s holds %r, the points filled give %r" % (kx, ky, sorted(got.items(), key=repr)[:6], sorted(want.items(), key=repr)[:6]), **wit))
+    if not np.array_equal(np.asarray(g2), grid) or len(xl) != len(xkeys) or len(yl) != len(ykeys):
+        failures.append(C.fail(None, "get_2dgrid disagrees with prepare_2dgrid/set_2dgrid", **wit))
+    return {
+        "digest": C.digest("2dm", wit),
+        "nontrivial": True,
+        "failures": failures,
+        "counters": counters,
+        "sets": {"two_d_pairs": {kx + "x" + ky}},
+        "sample": {"kind": "2-D grid (hist_numpy) of mixed binnings", "x": kx, "y": ky, "points": wit["points"][:4]},
+    }
+
+
 def _categorize_case(i, rng, tier):
     hg = env.hg()
     h = hg.Categorize(lambda d: d["c"], hg.Count())
@@ -505,7 +608,7 @@ def run_case(i, rng, tier):
     if i % 7 == 6:
         return _categorize_case(i, rng, tier)
     if i % 4 == 3:
-        return _two_d_case(i // 4, rng, tier)
+        return _two_d_case(i // 4, rng, tier) if (i // 4) % 2 == 0 else _two_d_mixed_case(i // 8, rng, tier)
     return _one_d_case(i, rng, tier)
 
 
@@ -514,7 +617,7 @@ def conclusive(agg):
     for k in ("Bin", "SparselyBin", "CentrallyBin", "IrregularlyBin"):
         if not agg.counters.get("configs:" + k):
             out.append("no configuration of kind " + k)
-    for c in ("full_range_checked", "probe_fills", "containment_checks", "subranges_checked", "subranges:near-edge", "subranges:between-edges", "two_d:Bin", "two_d:SparselyBin", "two_d:IrregularlyBin", "categorize_cases"):
+    for c in ("full_range_checked", "probe_fills", "containment_checks", "subranges_checked", "subranges:near-edge", "subranges:between-edges", "two_d:Bin", "two_d:SparselyBin", "two_d:IrregularlyBin", "categorize_cases", "two_d_mixed"):
         if not agg.counters.get(c):
             out.append("never exercised: " + c)
     return out
